@@ -150,6 +150,52 @@ PATTERN_SETS = [
 ]
 
 
+# regex_exclusions that are not translations of glob shapes: capturing groups, numbered / named back-references, top
+# level alternation, no end anchor (prefix semantics of re.match), inline flags.  Reference semantics: a path is
+# excluded iff re.match(p, path) succeeds for at least ONE pattern p, each pattern on its own.
+REGEX_SETS = [
+    (r".*/(a|c)\+b\.py$", r".*/(\w)\1b\.py$"),
+    (r".*/(\w)\1b\.py$", r".*/(a|c)\+b\.py$"),
+    (r".*/(?P<n>t)es(?P=n)$",),
+    (r".*test",),
+    (P + "r/ab",),
+    (r"r/ab\.py",),
+    (r".*/ab\.py$|.*/k\.py$",),
+    (r".*/k\.py$", r"(?i).*/AB\.PY$"),
+    (r".*/c\((\d)\)/k\1?\.py$", r".*/([a-z])\1b\.py$", r".*\$y\.py$"),
+]
+
+
+def e2e_regex_judge(model: FSModel, existing: set, patterns, base: str, plain, filtered):
+    import re
+
+    if plain[0] != "SCAN" or filtered[0] != "SCAN":
+        return ("MISMATCH", "two architectures", f"{plain[:3]} {filtered[:3]}")
+
+    def excluded(rel):
+        parts = rel.split("/")
+        return any(re.match(p, base + "/".join(parts[:i])) is not None for i in range(1, len(parts) + 1) for p in patterns)
+
+    gone = {dotted(p) for p in existing if (model.cands[p] == "dir" or p.endswith(".py")) and excluded(p)}
+    _, n0, i0, h0 = plain
+    want_nodes = set() if "r" in gone else n0 - gone
+    want_imp = {(u, v) for u, v in i0 if u in want_nodes and v in want_nodes}
+    _, n1, i1, h1 = filtered
+    if n1 != want_nodes:
+        return ("MISMATCH", f"regex_exclusions: modules {sorted(want_nodes)}", f"modules {sorted(n1)}")
+    if i1 != want_imp:
+        return ("MISMATCH", f"regex_exclusions: imports {sorted(want_imp)}", f"imports {sorted(i1)}")
+    return ("OK", len(want_nodes), len(gone))
+
+
+def e2e_regex_outcome(patterns, model: FSModel):
+    with symfs(model):
+        plain = e2e_scan("/symfs")
+        filtered = e2e_scan("/symfs", exclusions=(), regex_exclusions=tuple(patterns))
+        existing = {p for p in sorted(model.cands, key=lambda q: q.count("/")) if model.exists(p)}
+    return e2e_regex_judge(model, existing, patterns, "/symfs/", plain, filtered)
+
+
 def glob_match(p: str, s: str) -> bool:
     if p == "*":
         return True
@@ -280,6 +326,8 @@ def instances(tier: str) -> list[dict]:
         out.append({"part": "walk", "mp": mp, "cap": CAPS[tier]})
     for ps in PATTERN_SETS:
         out.append({"part": "e2e", "patterns": list(ps), "cap": CAPS[tier]})
+    for ps in REGEX_SETS:
+        out.append({"part": "e2e-regex", "patterns": list(ps), "cap": CAPS[tier]})
     return out
 
 
@@ -316,6 +364,15 @@ def work(inst: dict) -> dict:
         return check_no_mismatch(label_of(inst), fn, inst["cap"], make_payload, replay_detail, all_keys=keys, sample={"candidate_paths": sorted(WALK_CANDS)})
     model = FSModel(E2E_CANDS, E2E_LINES)
     patterns = tuple(inst["patterns"])
+    if inst["part"] == "e2e-regex":
+
+        def fn3():
+            return e2e_regex_outcome(patterns, model)
+
+        def make_payload3(assign):
+            return {"kind": "e2e-regex", "patterns": list(patterns), "assign": [[list(k), v] for k, v in sorted(assign.items(), key=str)]}
+
+        return check_no_mismatch(label_of(inst), fn3, inst["cap"], make_payload3, replay_detail, all_keys=model.all_keys(), sample={"candidate_paths": sorted(E2E_CANDS), "regex_exclusions": list(patterns)})
 
     def fn2():
         return e2e_outcome(patterns, model)
@@ -372,6 +429,10 @@ def replay_detail(payload: dict):
         model.materialise(assign, d)
         ex, _ = model.concrete(assign)
         patterns = tuple(p.replace("/symfs/", d + "/") for p in payload["patterns"])
+        if kind == "e2e-regex":
+            o = e2e_regex_judge(model, ex, patterns, d + "/", e2e_scan(d), e2e_scan(d, exclusions=(), regex_exclusions=patterns))
+            ok = o[0] == "OK"
+            return ok, f"tree {sorted(ex)} with regex_exclusions {patterns}: " + ("as specified" if ok else f"expected {o[1]}, got {o[2]}"), {"outcome": [str(x)[:300] for x in o]}
         rx = tuple(equivalent_regex(p) for p in patterns)
         o = e2e_judge(model, ex, patterns, d + "/", e2e_scan(d), e2e_scan(d, exclusions=patterns), e2e_scan(d, exclusions=(), regex_exclusions=rx))
         ok = o[0] == "OK"
@@ -394,7 +455,7 @@ def run(tier: str, only: str | None = None) -> int:
         "kernels": "pattern and path <= 3 chars over {a,*,.,+} (thorough) / <= 2 (quick); <= 2 chars over {*,(,[,\\\\,$,^,|,?}",
         "z3_strings": "pattern (non-empty) and path <= 6 (quick) / 7 (thorough) printable ASCII characters, closed form; cross-check instance at 4",
         "walk": {"candidate_paths": sorted(WALK_CANDS), "module_paths": ["r", "r/a", "r/a/x"], "exclusion": "one symbolic atom per path"},
-        "e2e": {"candidate_paths": sorted(E2E_CANDS), "pattern_sets": [list(p) for p in PATTERN_SETS]},
+        "e2e": {"candidate_paths": sorted(E2E_CANDS), "pattern_sets": [list(p) for p in PATTERN_SETS], "regex_sets": [list(p) for p in REGEX_SETS]},
     }
     rep.assumptions = [
         "paths contain no newline ('.' does not match it and '$' matches before a trailing one)",
